@@ -26,13 +26,14 @@ LEVEL_NOTE = (
     "expressions, fees, input names, +, -) and checked per case beyond it (AnyAsset, property access, mint and burn)."
 )
 PROP = "C02"
-TARGETS = ["Tx3Proofs.C02", "Tx3Proofs.C02Outputs", "Tx3Proofs.C02Balance"]
+TARGETS = ["Tx3Proofs.C02", "Tx3Proofs.C02Outputs", "Tx3Proofs.C02Balance", "Tx3Proofs.C01Optional"]
 THEOREMS = ["Tx3.C02_fee_exact", "Tx3.C02_validity_exact", "Tx3.C02_mint_range", "Tx3.C02_withdrawal_exact",
             "Tx3.C02_donation_exact", "Tx3.C02_negative_lovelace_wraps", "Tx3.C02_negative_asset_dropped",
             "Tx3.compileValue_exact", "Tx3.compileValues_exact", "Tx3.assetQty_insertAsset",
             "Tx3.C02_output_exact_partial", "Tx3.C02_output_block_exact",
             "Tx3.view_triples", "Tx3.range_triples", "Tx3.compile_view", "Tx3.den_odd", "Tx3.C02_source_to_output",
-            "Tx3.den_minusAll", "Tx3.C02_balance", "Tx3.C02_balance_mint"]
+            "Tx3.den_minusAll", "Tx3.C02_balance", "Tx3.C02_balance_mint",
+    "Tx3.C02_zero_mint_refused", "Tx3.C01_optional_output_kept_iff"]
 ASSUMPTIONS = [cc.MODEL_NOTE,
                "pallas' CBOR encoder is not modelled: its output is read back by the independent Lean reader",
                "spec oracle: expected quantities are computed from the constant template by plain integer arithmetic in the driver"]
